@@ -11,7 +11,7 @@ use crate::{
     math::{Comparison, OptimizationType},
     transformers::standardizer::to_standard_form,
 };
-use indexmap::IndexMap;
+use indexmap::{IndexMap, IndexSet};
 use num_traits::Zero;
 use serde::{Deserialize, Serialize};
 use std::fmt::Display;
@@ -514,9 +514,21 @@ impl LinearModel {
         out.push_str(&format!(" obj: {}\n", objective));
 
         out.push_str("Subject To\n");
+        // generated row names must not collide with a name the user wrote (e.g. a
+        // constraint the user called `c1`) nor with each other
+        let mut taken: IndexSet<String> = self
+            .constraints
+            .iter()
+            .map(|c| c.name())
+            .filter(|name| !name.is_empty())
+            .collect();
         for (i, c) in self.constraints.iter().enumerate() {
             let name = if c.name().is_empty() {
-                format!("c{}", i + 1)
+                let mut candidate = format!("c{}", i + 1);
+                while !taken.insert(candidate.clone()) {
+                    candidate.push('_');
+                }
+                candidate
             } else {
                 c.name()
             };
